@@ -1,6 +1,7 @@
 // rsdns verification harness: runs the real crate on the cases the Coq model is run on and
 // prints one canonical result line per case.  See /verif/DESIGN.md.
 mod canon;
+mod guard;
 mod ops_core;
 mod ops_script;
 
